@@ -32,6 +32,11 @@ def configs(tier):
         modes = ("full", [4, 4], [64, 64])
         for p, g, h, m, pr in itertools.product(profs, grids, sl.HALOS, modes, precs):
             yield {"prof": p, "grid": g[0], "dom": g[1], "halo": h, "modes": m, "prec": pr}
+        # analytic mode (constant profiles) with a non-zero background: the forward run's concentration ABOVE BACKGROUND is compared
+        for h, m in itertools.product((0.0, 13.0, None), ("full", [4, 4])):
+            yield {"prof": "const", "grid": sl.GRIDS[0][0], "dom": sl.GRIDS[0][1], "halo": h, "modes": m, "prec": "double", "analytic": True, "bg": 3.5}
+        for h in (13.0, None):
+            yield {"prof": "most_aniso", "grid": sl.GRIDS[0][0], "dom": sl.GRIDS[0][1], "halo": h, "modes": "full", "prec": "double", "bg": -2.25}
         # one single-precision and one other-grid representative per halo
         for h in sl.HALOS:
             yield {"prof": "mostm_s", "grid": sl.GRIDS[1][0], "dom": sl.GRIDS[1][1], "halo": h, "modes": "full", "prec": "single"}
@@ -72,7 +77,9 @@ def case_reciprocity(case):
     prec = case["prec"]
     sl.pollute(*sl.padded_size(nx, ny, dom, halo)[:2], dx, dy)
     tol = 1e-9 if prec == "double" else 2e-5
-    kw = dict(modes=modes, halo=halo, precision=prec)
+    kw = dict(modes=modes, halo=halo, precision=prec, analytic=bool(case.get("analytic")))
+    bg = float(case.get("bg", 0.0))
+    fkw = dict(kw, srf_bg_conc=bg) if bg else kw  # forward runs carry the background; it is subtracted again below
     ncell = nx * ny
     F = np.zeros((2, 2, ncell, ncell))  # [conc/flx, level, m, s]
     D = np.zeros((2, 2, ncell, ncell))  # [conc/flx, level, s, m]
@@ -99,19 +106,19 @@ def case_reciprocity(case):
         buf[j, i] = 1.0
         if m % 3 == 1:
             for l, lev in enumerate(levels):
-                _, c, f = S(buf, z, prof, dom, lev, **kw)
-                D[0, l, m, :] = np.asarray(c).reshape(ncell)
+                _, c, f = S(buf, z, prof, dom, lev, **fkw)
+                D[0, l, m, :] = np.asarray(c).reshape(ncell) - bg
                 D[1, l, m, :] = np.asarray(f).reshape(ncell)
                 nextra += 1
         else:
-            _, c, f = S(buf, z, prof, dom, levels, **kw)
-            D[0, :, m, :] = np.asarray(c).reshape(2, ncell)
+            _, c, f = S(buf, z, prof, dom, levels, **fkw)
+            D[0, :, m, :] = np.asarray(c).reshape(2, ncell) - bg
             D[1, :, m, :] = np.asarray(f).reshape(2, ncell)
     v = []
     worst = 0.0
     for w, name in ((1, "flux"), (0, "concentration")):
         for l in range(2):
-            scale = max(np.abs(D[w, l]).max(), 1e-300)
+            scale = max(np.abs(D[w, l]).max(), 1e-300, (1e-6 * abs(bg)) if w == 0 else 0.0)
             err = np.abs(F[w, l] - D[w, l].T) / scale
             e = float(err.max()) if np.all(np.isfinite(err)) else float("inf")
             worst = max(worst, e)
@@ -133,8 +140,8 @@ def case_reciprocity(case):
     allf = dict(sl.fields(rng, ny, nx))
     allf.update(sl.scaled_fields(rng, ny, nx))  # the same statement in other units (tolerances are relative to the forward field)
     for fname, q in allf.items():
-        _, cd, fd = S(q, z, prof, dom, levels, **kw)
-        cd, fd = np.asarray(cd).reshape(2, ny, nx), np.asarray(fd).reshape(2, ny, nx)
+        _, cd, fd = S(q, z, prof, dom, levels, **fkw)
+        cd, fd = np.asarray(cd).reshape(2, ny, nx) - bg, np.asarray(fd).reshape(2, ny, nx)
         nexec += 1
         qF = np.asfortranarray(q)
         qS = np.repeat(np.repeat(q, 2, axis=0), 2, axis=1)[::2, ::2]
@@ -145,7 +152,8 @@ def case_reciprocity(case):
                     qa = (q, qF, qS)[m % 3]
                     got = point_measurement(qa, F[w, l, m].reshape(ny, nx))
                     want = d[l, j, i]
-                    scale = max(np.abs(d[l]).max(), 1e-300)
+                    # (with a background the forward concentration is known only to rounding of the background itself)
+                    scale = max(np.abs(d[l]).max(), 1e-300, (1e-6 * abs(bg)) if name == "concentration" else 0.0)
                     e = abs(got - want) / scale
                     worst = max(worst, e)
                     if not e <= tol * 5:
